@@ -33,7 +33,7 @@ CONSTANTS MaxN,        \* max number of writable services
           KindSet,     \* outcome kinds the environment may choose
           MaxHist      \* bound on the recorded history (Gen only)
 
-VARIABLES cfg, attempts, last, allok, everok, confirmed, done,   \* contract ghost state
+VARIABLES cfg, attempts, last, allok, everok, confirmed, maybe, done,   \* contract ghost state
           n,           \* number of writable services (sv of round 1 = <<1..n>>, rendezvous order)
           rpt,         \* replicasPerThread
           sv, nextServer, active, todo, rdone, retriesRemaining, retryServers, locator,
@@ -41,7 +41,7 @@ VARIABLES cfg, attempts, last, allok, everok, confirmed, done,   \* contract gho
           hist         \* sequence of <<server, kind>> completions, in order (history variable)
 
 C == INSTANCE KeepPutContract
-cvars == <<cfg, attempts, last, allok, everok, confirmed, done>>
+cvars == <<cfg, attempts, last, allok, everok, confirmed, maybe, done>>
 
 ivars == <<n, rpt, sv, nextServer, active, todo, rdone, retriesRemaining, retryServers, locator, pc>>
 vars  == <<cvars, ivars, hist>>
@@ -125,7 +125,9 @@ EndRound ==
     /\ UNCHANGED <<cvars, n, rpt, nextServer, active, todo, rdone, retriesRemaining, retryServers,
                    locator, hist>>
 
-IsRetryable(k) == k \in C!Transient     \* statusCode 0, 408, 429, >= 500 except 503
+\* statusCode 0, 408, 429, >= 500 except 503.  A 200 whose body cannot be read is reported by
+\* uploadToKeepServer with statusCode 0 (not counted, retried like a connection error).
+IsRetryable(k) == k \in C!Transient \cup C!Broken
 
 \* status := <-uploadStatusChan
 Recv(s, k) ==
